@@ -26,6 +26,7 @@ std::map<std::string, int> &notstatic_map() {
     return m;
 }
 
+void bad_compression(uint32_t *, const unsigned char *, size_t) {}   // deliberately wrong: leaves the state untouched
 int g_last_tag = -1;
 int g_tags[16];
 void tag_illegal_cb(const char *msg, void *data) {
@@ -62,7 +63,7 @@ static Plan ctx_generate(uint64_t seed, int tier) {
     int nlc = (int)g.range(5, tier ? 40 : 24);
     // swarm: each run enables a random subset of op kinds
     std::vector<int> kinds;
-    for (int k = 0; k < 12; k++) if (g.chance(3, 4)) kinds.push_back(k);
+    for (int k = 0; k < 13; k++) if (g.chance(3, 4)) kinds.push_back(k);
     if (kinds.empty()) kinds.push_back(0);
     for (int i = 0; i < nlc; i++) {
         int k = kinds[g.below(kinds.size())];
@@ -80,6 +81,7 @@ static Plan ctx_generate(uint64_t seed, int tier) {
             case 8: o.k = "lc.setcb"; o.a = {s, (int64_t)g.below(8)}; break;
             case 9: o.k = "lc.destroy"; o.a = {s}; break;
             case 10: o.k = "lc.oom"; o.a = {(int64_t)g.below(2), s, s2}; break;
+            case 12: o.k = "lc.badcomp"; o.a = {s}; break;
             default: o.k = "lc.probe"; o.a = {s, (int64_t)g.below(NP)}; break;
         }
         p.ops.push_back(o);
@@ -256,6 +258,16 @@ static void ctx_execute(const Plan &p, const ExecOpts &, Result &r) {
             L(secp256k1_context_set_sha256_compression(s.ctx, probe_compression)); s.comp = true;
             r.ev("setcomp " + std::to_string(si)); r.fault("lc.setcomp");
             check_comp_and_cb(s, si);
+        } else if (o.k == "lc.badcomp") {
+            // an incorrect compression function is offered: the library may refuse it (illegal callback) - then the
+            // context must be exactly as before; if it accepts it, that is outside the property (no verdict, slot dropped)
+            int64_t i0 = g_mon.illegal_count;
+            L(secp256k1_context_set_sha256_compression(s.ctx, bad_compression));
+            int64_t d = g_mon.illegal_count - i0;
+            r.expected_illegal += d;
+            r.ev("badcomp " + std::to_string(si) + " -> callbacks " + std::to_string(d)); r.fault("lc.badcomp");
+            if (d > 0) { r.probe("wrong_compression_refused"); g_last_tag = -2; check_comp_and_cb(s, si); }
+            else { r.probe("wrong_compression_accepted"); destroy_slot(s); }
         } else if (o.k == "lc.resetcomp") {
             L(secp256k1_context_set_sha256_compression(s.ctx, NULL)); s.comp = false;
             r.ev("resetcomp " + std::to_string(si)); r.fault("lc.resetcomp");
